@@ -3,6 +3,27 @@
 use crate::common::*;
 use crate::u::dl::*;
 
+/// recursive min where group and aggregated variables come *directly* from the first body atom
+/// (in head order with extra columns behind, extra column in front, aggregated column not adjacent,
+/// two recursive clauses) — no computed column between the scan and the head.
+fn minmax_direct_template(ctx: &mut Ctx) -> Vec<Rule> {
+    let agg = |x: &str| H::A("min".to_string(), x.to_string());
+    let base = rule("a", vec![hv("X"), agg("C")], vec![pos("f", vec![v("X"), v("C")])]);
+    let r_behind = rule("a", vec![hv("X"), agg("C")], vec![pos("w", vec![v("X"), v("C"), v("Y")]), pos("a", vec![v("Y"), T::W])]);
+    let r_front = rule("a", vec![hv("X"), agg("C")], vec![pos("w", vec![v("Y"), v("X"), v("C")]), pos("a", vec![v("Y"), T::W])]);
+    let r_apart = rule("a", vec![hv("X"), agg("C")], vec![pos("w", vec![v("X"), v("Y"), v("C")]), pos("a", vec![v("Y"), T::W])]);
+    let r_exact = rule("a", vec![hv("X"), agg("C")], vec![pos("e", vec![v("X"), v("C")]), pos("a", vec![v("X"), T::W])]);
+    let mut rules = match ctx.below(5) {
+        0 => vec![base, r_behind],
+        1 => vec![base, r_front],
+        2 => vec![base, r_apart],
+        3 => vec![base, r_behind, r_exact],
+        _ => vec![r_behind, base],
+    };
+    rules.push(rule("q", vec![hv("X"), hv("C")], vec![pos("a", vec![v("X"), v("C")])]));
+    rules
+}
+
 fn minmax_template(ctx: &mut Ctx) -> Vec<Rule> {
     let f = "min"; // recursive max with a sum diverges in the engine (observed: no fix-point within 20 s), which would stall the run
     let agg = |x: &str| H::A(f.to_string(), x.to_string());
@@ -30,7 +51,7 @@ pub fn gen(ctx: &mut Ctx) -> Vec<String> {
     }
     let n = ctx.budget(1000, 8000);
     for i in 0..n {
-        let (shape, rules) = if i % 12 == 0 { ("recursive_minmax", minmax_template(ctx)) } else { let g = gen_program(ctx); (g.shape, g.rules) };
+        let (shape, rules) = if i % 12 == 0 { ("recursive_minmax", minmax_template(ctx)) } else if i % 12 == 6 { ("recursive_minmax_direct", minmax_direct_template(ctx)) } else { let g = gen_program(ctx); (g.shape, g.rules) };
         ctx.count(&format!("shape_{shape}"));
         let rels = edb_rels_of(&rules); let relrefs: Vec<(&str, usize)> = rels.iter().map(|(r, a)| (r.as_str(), *a)).collect();
         let edb = gen_edb(ctx, &relrefs, 6, 4);
